@@ -101,7 +101,8 @@ META = {
         # directed races (op `race …`): the model prints the outcome of exactly the interleaving the harness
         # tries to force and the set of outcomes the property allows; where the scheduler did not produce that
         # interleaving the implementation's outcome must still be one of the allowed ones
-        compare=lambda cid, impl, model, tags: cid.startswith("race-d") and _race_ok(impl, model),
+        compare=lambda cid, impl, model, tags: (cid.startswith("race-d") and _race_ok(impl, model)) or
+                                               (cid.startswith("fd-") and _fd_ok(impl, model)),
     ),
     "C05": dict(
         rule="TCC prepare inside a real global transaction with parameter structs of several shapes (unexported fields, "
@@ -323,6 +324,11 @@ def _member(impl, model):
             if x not in s.strip("{}").split(","):
                 return False
     return True
+
+
+def _fd_ok(impl, model):
+    # the fence driver path: answer and record of every delivery (the effect counters are the caller's business there)
+    return impl.split() == [":".join(x.split(":")[:2]) for x in model.split()]
 
 
 def _race_ok(impl, model):
